@@ -66,7 +66,7 @@ def _scal(name, got, num, den, case, fails):
 
 def check(case, ctx):
     kind = case["kind"]
-    W = np.array(case["W"])
+    W = gen.layout(np.array(case["W"]), case.get("order"))
     fails = []
     ctx.label("kind:" + kind)
     if W.dtype.kind == "i":
@@ -93,7 +93,7 @@ def check(case, ctx):
         numn, denn = oc.und_terms(Wn, True)
         if (np.any(nump > 0) and np.any(nump == 0)) or (np.any(numn > 0) and np.any(numn == 0)):
             ctx.mark_nontrivial({"kind": kind, "W": W})
-        r = run(bct.clustering_coef_wu_sign, W.copy())
+        r = run(bct.clustering_coef_wu_sign, gen.layout(W.copy(), case.get("order")))
         if r is not None:
             try:
                 cp, cn = r
@@ -110,10 +110,10 @@ def check(case, ctx):
         ctx.label("triangle-free")
     if np.any(den == 0):
         ctx.label("has-node-with-<2-neighbours")
-    r = run(fc, W.copy())
+    r = run(fc, gen.layout(W.copy(), case.get("order")))
     if r is not None:
         _vec(fc.__name__, r, num, den, case, fails, True)
-    r = run(ft, W.copy())
+    r = run(ft, gen.layout(W.copy(), case.get("order")))
     if r is not None:
         _scal(ft.__name__, r, num, den, case, fails)
     return fails
@@ -170,7 +170,7 @@ def cases(draw, nmax, kinds):
         W = draw(gen.weights_for(A, draw(st.sampled_from(["dyadic", "float"])), directed))
     else:
         W = draw(gen.weights_for(A, "signed", False))
-    return {"kind": kind, "W": W}
+    return {"kind": kind, "W": W, "order": draw(st.sampled_from(gen.ORDERS))}
 
 
 _SP = {}
@@ -187,7 +187,7 @@ def _space(tier):
 
 def _exh(tier, lo, hi):
     for n, d, A, k in _space(tier).range(lo, hi):
-        yield {"kind": "bd" if d else "bu", "W": A.astype(float)}
+        yield {"kind": "bd" if d else "bu", "W": A.astype(float), "order": gen.ORDERS[k % len(gen.ORDERS)]}
 
 
 _D5 = gen.GraphSpace([(5, True)])
